@@ -387,8 +387,10 @@ class Obj(Shape):
         return [Obj(self.cls, frozen=self.frozen, **dict(zip(keys, combo))) for combo in itertools.product(*alts)]
 
     def fresh(self, ctx, name, inputs=False):
-        return SObj(self.cls, {k: s.fresh(ctx, f'{name}.{k}', inputs) for k, s in self.fields.items()},
-                    frozen=self.frozen, label=name)
+        o = SObj(self.cls, {k: s.fresh(ctx, f'{name}.{k}', inputs) for k, s in self.fields.items()},
+                 frozen=self.frozen, label=name)
+        o.described = bool(self.fields)
+        return o
 
     def native(self, name, ev):
         args = ', '.join(f'{k!r}: {s.native(f"{name}.{k}", ev)}' for k, s in self.fields.items())
@@ -417,28 +419,102 @@ class Obj(Shape):
                     cs.append(v.describe()[1:])
                 else:
                     cs.append(f'{k}{v.describe()}')
-            elif isinstance(v, Obj):
+            elif isinstance(v, (Obj, Built)):
                 d = v.describe()
                 if '(' in d:
                     cs.append(f'{k}:{d[d.index("(") + 1:-1]}')
         return self.cls.__name__ + (f'({",".join(cs)})' if cs else '')
 
 
-def Quantity(cls, unit=None, value=None, units=None):
-    """AbstractDimension instance: symbolic base-unit magnitude, display unit from ``units``
-    (default: every unit of the dimension -> one instance each) or fixed ``unit``."""
+class Built(Shape):
+    """Object obtained by running the *real* constructor symbolically on scalar arguments
+    (all constructor paths merged with ITE; raising paths are excluded by assumption).  The
+    reachable representation - whatever fields the constructor sets - is thus taken from the
+    code, not from the contract."""
+
+    def __init__(self, cls, *args, **kwargs):
+        self.cls = cls
+        self.args = args
+        self.kwargs = kwargs
+
+    def alternatives(self):
+        keys = list(self.kwargs)
+        alts = [a.alternatives() for a in self.args] + [self.kwargs[k].alternatives() for k in keys]
+        out = []
+        for combo in itertools.product(*alts):
+            out.append(Built(self.cls, *combo[:len(self.args)], **dict(zip(keys, combo[len(self.args):]))))
+        return out
+
+    def _run(self, ctx, args, kwargs, name):
+        from .state import State
+        from .values import Raised
+        ip = ctx.ip
+        s0 = State()
+        s0.push(ctx.finfo0)
+        ctx.spec_depth += 1
+        try:
+            outs = list(ip.construct(self.cls, list(args), dict(kwargs), s0, None))
+        finally:
+            ctx.spec_depth -= 1
+        good = []
+        for v, s in outs:
+            cond = z3.And(*s.pc) if s.pc else z3.BoolVal(True)
+            if isinstance(v, Raised):
+                ctx.assume(z3.Not(cond))
+            else:
+                good.append((v, cond))
+        if not good:
+            raise EngineError(f'constructor of {self.cls.__name__} has no normal path for shape {name}')
+        fields = dict(good[-1][0].fields)
+        for v, cond in reversed(good[:-1]):
+            if set(v.fields) != set(fields):
+                raise EngineError(f'constructor paths of {self.cls.__name__} set different fields')
+            for k in fields:
+                fields[k] = ip.ite(SBool(cond), v.fields[k], fields[k])
+        return SObj(self.cls, fields, label=name)
+
+    def fresh(self, ctx, name, inputs=False):
+        args = [a.fresh(ctx, f'{name}.arg{i}', inputs) for i, a in enumerate(self.args)]
+        kwargs = {k: a.fresh(ctx, f'{name}.{k}', inputs) for k, a in self.kwargs.items()}
+        return self._run(ctx, args, kwargs, name)
+
+    def native(self, name, ev):
+        parts = [a.native(f'{name}.arg{i}', ev) for i, a in enumerate(self.args)]
+        parts += [f'{k}={a.native(f"{name}.{k}", ev)}' for k, a in self.kwargs.items()]
+        return f'{self.cls.__name__}({", ".join(parts)})'
+
+    def engine(self, name, ev):
+        args = [a.engine(f'{name}.arg{i}', ev) for i, a in enumerate(self.args)]
+        kwargs = {k: a.engine(f'{name}.{k}', ev) for k, a in self.kwargs.items()}
+        return self._run(ev.ctx, args, kwargs, name)
+
+    def describe(self):
+        cs = [a.describe()[1:] for a in list(self.args) + list(self.kwargs.values()) if isinstance(a, Const)]
+        return self.cls.__name__ + (f'({",".join(cs)})' if cs else '')
+
+
+def _unit_list(cls, unit, units):
     import enum as _e
     if unit is not None:
-        u = Const(unit)
-    else:
-        us = units if units is not None else [v for k, v in vars(cls).items() if isinstance(v, _e.Enum)]
-        seen, uniq = set(), []
-        for x in us:
-            if x not in seen:
-                seen.add(x)
-                uniq.append(x)
-        u = Enum(*uniq)
-    return Obj(cls, _value=value or Real(), _defined_units=u)
+        return [unit]
+    us = units if units is not None else [v for k, v in vars(cls).items() if isinstance(v, _e.Enum)]
+    seen, uniq = set(), []
+    for x in us:
+        if x not in seen:
+            seen.add(x)
+            uniq.append(x)
+    return uniq
+
+
+def Quantity(cls, unit=None, value=None, units=None):
+    """AbstractDimension instance built by the real constructor ``cls(v, unit)`` from a symbolic
+    reading v in its unit; the unit ranges over ``units`` (one verification instance each)."""
+    return Built(cls, value or Real(), Enum(*_unit_list(cls, unit, units)))
+
+
+def QuantityF(cls, unit=None, value=None, units=None):
+    """field-described quantity (symbolic base-unit magnitude): for elements of symbolic lists"""
+    return Obj(cls, _value=value or Real(), _defined_units=Enum(*_unit_list(cls, unit, units)))
 
 
 class ListOf(Shape):
